@@ -86,6 +86,9 @@ func (x *Exec) native(name string, fn *ssa.Function, args []Value) (Value, bool)
 		}
 		return Tuple{FP(f), Iface{}}, true
 	case "strconv.FormatInt":
+		if t := args[0].(*Term); !t.isC {
+			return &OpaqueStr{kind: "int", num: t, fmt: "base" + fmt.Sprint(args[1].(*Term).c)}, true
+		}
 		return strOf(strconv.FormatInt(sext(args[0].(*Term).c, 64), int(args[1].(*Term).c))), true
 	case "strconv.Itoa":
 		return strOf(strconv.Itoa(int(sext(args[0].(*Term).c, 64)))), true
@@ -94,12 +97,19 @@ func (x *Exec) native(name string, fn *ssa.Function, args []Value) (Value, bool)
 	case "strconv.FormatFloat":
 		t := args[0].(*Term)
 		if !t.isC {
-			panic(abortPath{"FormatFloat symbolic", false})
+			return &OpaqueStr{kind: "float", num: t, fmt: fmt.Sprintf("%c%d", byte(args[1].(*Term).c), sext(args[2].(*Term).c, 64))}, true
 		}
 		return strOf(strconv.FormatFloat(t.f(), byte(args[1].(*Term).c), int(sext(args[2].(*Term).c, 64)), int(args[3].(*Term).c))), true
 	case "fmt.Sprintf", "fmt.Errorf":
 		format := mustStr(args[0])
 		var as []interface{}
+		if vals := x.sliceVals(args[1].(SliceV)); name == "fmt.Sprintf" && len(vals) == 1 {
+			if iv, ok := vals[0].(Iface); ok {
+				if t, ok := iv.v.(*Term); ok && !t.isC {
+					return &OpaqueStr{kind: "sprintf", num: t, fmt: format}, true
+				}
+			}
+		}
 		for _, a := range x.sliceVals(args[1].(SliceV)) {
 			as = append(as, x.toAny(a))
 		}
@@ -216,7 +226,7 @@ func (x *Exec) native(name string, fn *ssa.Function, args []Value) (Value, bool)
 		if t.isC {
 			return FP(math.Trunc(t.f())), true
 		}
-		return mk("(fp.roundToIntegral RTZ "+t.s+")", Sort{FP: true}), true
+		return mkOp("fp.roundToIntegral RTZ", Sort{FP: true}, "fp.trunc", 0, t), true
 	case "math.NaN":
 		return FP(math.NaN()), true
 	case "math.Inf":
@@ -229,7 +239,7 @@ func (x *Exec) native(name string, fn *ssa.Function, args []Value) (Value, bool)
 			return Bool(math.IsInf(t.f(), int(sext(args[1].(*Term).c, 64)))), true
 		}
 		sign := sext(args[1].(*Term).c, 64)
-		inf := mk("(fp.isInfinite "+t.s+")", Sort{Bool: true})
+		inf := mkOp("fp.isInfinite", Sort{Bool: true}, "fp.isInfinite", 0, t)
 		switch {
 		case sign > 0:
 			return And(inf, fpcmp("fp.gt", t, FP(0))), true
@@ -316,6 +326,29 @@ func (x *Exec) intSlice(v []int) Value {
 	return SliceV{a: a, len: len(v), cap: len(v)}
 }
 
+// OpaqueStr is the string produced by formatting a symbolic number: an uninterpreted function of
+// (route, format, number).  It supports equality with another opaque string and the verifOpaque*
+// intrinsics; any other inspection makes the path inconclusive (engine error on the type assertion).
+type OpaqueStr struct {
+	kind string // "int" | "float" | "sprintf"
+	num  *Term
+	fmt  string
+}
+
+func (x *Exec) opaqueEq(a, b *OpaqueStr) *Term {
+	if a.kind != b.kind || a.fmt != b.fmt || a.num.sort != b.num.sort {
+		panic(abortPath{"comparison of differently formatted opaque number strings", false})
+	}
+	if a.num.sort.FP {
+		// same format of the same float value gives the same text; -0 vs +0 and NaN payloads may print differently or equally: stay exact
+		if a.num.isC && b.num.isC {
+			return Bool(a.num.c == b.num.c)
+		}
+		return mkOp("=", Sort{Bool: true}, "=", 0, a.num, b.num) // SMT-LIB identity on floats: NaN = NaN, +0 != -0
+	}
+	return bvcmp("=", a.num, b.num)
+}
+
 func boolTerm(v Value) *Term { return v.(*Term) }
 
 
@@ -341,12 +374,20 @@ func (x *Exec) symParseFloat(s *Str) Value {
 	if n != len(s.b) {
 		return synErr()
 	}
-	bs := func(t *Term) string {
-		return t.s
-	}
-	val := mk("(pf_val "+rf[0].(*Term).s+" "+rf[1].(*Term).s+" "+bs(boolTerm(rf[2]))+" "+bs(boolTerm(rf[3]))+" "+bs(boolTerm(rf[4]))+")", Sort{FP: true})
-	rng := x.FreshBV("rangeerr", 1)
-	if x.branch(bvcmp("=", rng, BV(1, 1))) {
+	pfArgs := []*Term{rf[0].(*Term), rf[1].(*Term), boolTerm(rf[2]), boolTerm(rf[3]), boolTerm(rf[4])}
+	var val *Term = mkOp("pf_val", Sort{FP: true}, "uf", 0, pfArgs...)
+	// contract of the digit->binary step: never NaN; a zero mantissa is a (signed) zero; a decimal numeral
+	// without exponent and without truncated digits is the correctly rounded mantissa
+	x.addPC(Not(fpIsNaN(val)))
+	mant, exp10, neg, trunc, hex := pfArgs[0], pfArgs[1], pfArgs[2], pfArgs[3], pfArgs[4]
+	plain := And(bvcmp("=", exp10, BV(0, 64)), And(Not(trunc), Not(hex)))
+	mf := int64ToFP(mant, false)
+	val = Ite(bvcmp("=", mant, BV(0, 64)), Ite(neg, FP(math.Copysign(0, -1)), FP(0)),
+		Ite(plain, Ite(neg, fpneg(mf), mf), val))
+	// the range error is a function of the same decomposition (same text => same verdict); overflow needs a large exponent
+	rng := mkOp("pf_range", Sort{Bool: true}, "uf", 0, pfArgs...)
+	rng = And(rng, bvcmp("bvsle", BV(250, 64), rf[1].(*Term)))
+	if x.branch(rng) {
 		return Tuple{val, x.newError("strconv.ParseFloat: value out of range")}
 	}
 	return Tuple{val, Iface{}}
